@@ -421,20 +421,39 @@ func matrixCmd(args []string) error {
 			v := matrix.Vector3{b[0][0], b[1][0], b[2][0]}
 			mv := a.MulV(v)
 			sink.put(dy{"kind": "mulv", "a": ai, "v": []dy{bi[0][0], bi[0][1], bi[0][2]}, "q": q, "o": []dy{obsv(mv[0]), obsv(mv[1]), obsv(mv[2])}})
+			if i%4 == 0 { // structured vectors: uniform (1,1,1) / (g,g,g), unit, zero, two equal components
+				g := bi[0][i/4%3]
+				gv := b[i/4%3][0]
+				one, zero := intEntry(1<<q), intEntry(0)
+				for _, sv := range []struct {
+					v  matrix.Vector3
+					iv []dy
+				}{{matrix.Vector3{1, 1, 1}, []dy{one, one, one}}, {matrix.Vector3{gv, gv, gv}, []dy{g, g, g}},
+					{matrix.Vector3{0, 1, 0}, []dy{zero, one, zero}}, {matrix.Vector3{0, 0, 0}, []dy{zero, zero, zero}},
+					{matrix.Vector3{gv, gv, 1}, []dy{g, g, one}}, {matrix.Vector3{1, gv, gv}, []dy{one, g, g}}} {
+					m2 := a.MulV(sv.v)
+					sink.put(dy{"kind": "mulv", "a": ai, "v": sv.iv, "q": q, "o": []dy{obsv(m2[0]), obsv(m2[1]), obsv(m2[2])}})
+				}
+			}
 			sink.put(dy{"kind": "transpose", "a": ai, "q": q, "o": rowsOf(a.Transpose())})
 			// Dot and MulS through the same contracts: Dot(u, v) = (row vector u) * v ; MulS = scaling
 			if i%3 == 0 {
 				// exactly singular: repeated or zero columns
 				s := a
-				switch rng.Intn(4) {
-				case 0:
-					s[1] = s[0]
-				case 1:
-					s[2] = s[1]
-				case 2:
-					s[rng.Intn(3)] = matrix.Vector3{}
-				case 3:
-					s[2] = s[0]
+				// each column is 0, column A or column B: the 27 patterns, all of them singular
+				// (at most two distinct non-zero columns), the all-zero matrix included
+				pat := (i / 3) % 27
+				ca, cb := a[0], a[1]
+				for c := 0; c < 3; c++ {
+					switch pat % 3 {
+					case 0:
+						s[c] = matrix.Vector3{}
+					case 1:
+						s[c] = ca
+					case 2:
+						s[c] = cb
+					}
+					pat /= 3
 				}
 				si := make([][]dy, 3)
 				for r := 0; r < 3; r++ {
